@@ -29,7 +29,7 @@ static void op_classify(int nt, char **t) {
     LIB(r = libwifi_get_wifi_frame(&f, b, n, rt));
     int modified = memcmp(copy, b, n) != 0;
     /* a classified frame owns its data: wipe and release the input before looking at the result */
-    memset(b, 0xEE, n); __real_free(b); __real_free(copy);
+    memset(b, 0xEE, n); hfree(b); hfree(copy);
     if (r != 0) {
         printf("classify err");
     } else {
@@ -59,7 +59,7 @@ static void op_eapol(int nt, char **t) {
     struct libwifi_frame f; memset(&f, prefill, sizeof f);
     int r;
     LIB(r = libwifi_get_wifi_frame(&f, b, n, rt));
-    memset(b, 0xEE, n); __real_free(b);
+    memset(b, 0xEE, n); hfree(b);
     if (r != 0) { printf("eapol cls=err"); LIB(libwifi_free_wifi_frame(&f)); return; }
     int hs, msg, kdl, gr;
     const char *ms;
@@ -120,7 +120,7 @@ static void op_mgmt(int nt, char **t) {
     struct libwifi_frame f; memset(&f, prefill, sizeof f);
     int r;
     LIB(r = libwifi_get_wifi_frame(&f, b, n, rt));
-    memset(b, 0xEE, n); __real_free(b);
+    memset(b, 0xEE, n); hfree(b);
     if (r != 0) { printf("mgmt cls=err"); LIB(libwifi_free_wifi_frame(&f)); return; }
     printf("mgmt");
     typedef int (*bssp)(struct libwifi_bss *, struct libwifi_frame *);
